@@ -5,7 +5,7 @@ namespace LlgoVerif.Gen.C12
 open LlgoVerif.Init
 
 /-- number of facts about patched std packages at the head of `facts` -/
-def nStd : Nat := 9
+def nStd : Nat := 2
 
 def facts : List InitFact := [
   -- sync/atomic.init (replacement, chained=True)
@@ -16,34 +16,6 @@ def facts : List InitFact := [
   { id := 0, hasPatchFn := true, chained := true,
     toks := [.loadGuard, .brGuard .body .ret, .storeGuard, .brRet],
     imports := [], goList := [] },
-  -- internal/abi.init (shape only, chained=True)
-  { id := 1, hasPatchFn := false, chained := true,
-    toks := [.loadGuard, .brGuard .ret .body, .storeGuard, .callHasPatch, .callInit 0, .brRet],
-    imports := [0], goList := [0] },
-  -- internal/abi.init$hasPatch (shape only, chained=True)
-  { id := 1, hasPatchFn := true, chained := true,
-    toks := [.loadGuard, .brGuard .body .ret, .storeGuard, .callInit 0, .act, .brRet],
-    imports := [0], goList := [0] },
-  -- internal/runtime/maps.init (shape only, chained=True)
-  { id := 1, hasPatchFn := false, chained := true,
-    toks := [.loadGuard, .brGuard .ret .body, .storeGuard, .callHasPatch, .callInit 0, .brRet],
-    imports := [0], goList := [0] },
-  -- internal/runtime/maps.init$hasPatch (shape only, chained=True)
-  { id := 7, hasPatchFn := true, chained := true,
-    toks := [.loadGuard, .brGuard .body .ret, .storeGuard, .callInit 0, .callInit 2, .callInit 6, .callInit 5, .callInit 4, .callInit 1, .callInit 3, .brRet],
-    imports := [0, 2, 6, 5, 4, 1, 3], goList := [0, 1, 2, 3, 4, 5, 6] },
-  -- internal/runtime/sys.init (shape only, chained=True)
-  { id := 0, hasPatchFn := false, chained := true,
-    toks := [.loadGuard, .brGuard .ret .body, .storeGuard, .callHasPatch, .brRet],
-    imports := [], goList := [] },
-  -- internal/runtime/sys.init$hasPatch (shape only, chained=True)
-  { id := 2, hasPatchFn := true, chained := true,
-    toks := [.loadGuard, .brGuard .body .ret, .storeGuard, .callInit 0, .callInit 1, .act, .brRet],
-    imports := [0, 1], goList := [0, 1] },
-  -- runtime.init (shape only, chained=False)
-  { id := 6, hasPatchFn := false, chained := false,
-    toks := [.loadGuard, .brGuard .ret .body, .storeGuard, .callInit 1, .callInit 0, .callInit 2, .callInit 5, .callInit 3, .callInit 4, .act, .brRet],
-    imports := [1, 0, 2, 5, 3, 4], goList := [0, 1, 2, 3, 4, 5] },
   -- c12f/t0/tr.init
   { id := 0, hasPatchFn := false, chained := false,
     toks := [.loadGuard, .brGuard .ret .body, .storeGuard, .act, .brRet],
@@ -99,83 +71,7 @@ def facts : List InitFact := [
   -- c12f/t2.init
   { id := 2, hasPatchFn := false, chained := false,
     toks := [.loadGuard, .brGuard .ret .body, .storeGuard, .callInit 1, .callInit 0, .act, .brRet],
-    imports := [1, 0], goList := [0, 1] },
-  -- c12f/t3/tr.init
-  { id := 0, hasPatchFn := false, chained := false,
-    toks := [.loadGuard, .brGuard .ret .body, .storeGuard, .act, .brRet],
-    imports := [], goList := [] },
-  -- c12f/t3/sierra.init
-  { id := 1, hasPatchFn := false, chained := false,
-    toks := [.loadGuard, .brGuard .ret .body, .storeGuard, .callInit 0, .act, .brRet],
-    imports := [0], goList := [0] },
-  -- c12f/t3/alpha.init
-  { id := 2, hasPatchFn := false, chained := false,
-    toks := [.loadGuard, .brGuard .ret .body, .storeGuard, .callInit 0, .act, .brRet],
-    imports := [0], goList := [0] },
-  -- c12f/t3/able.init
-  { id := 3, hasPatchFn := false, chained := false,
-    toks := [.loadGuard, .brGuard .ret .body, .storeGuard, .callInit 0, .callInit 2, .act, .brRet],
-    imports := [0, 2], goList := [0, 2] },
-  -- c12f/t3/echo.init
-  { id := 4, hasPatchFn := false, chained := false,
-    toks := [.loadGuard, .brGuard .ret .body, .storeGuard, .callInit 2, .callInit 0, .callInit 3, .act, .brRet],
-    imports := [2, 0, 3], goList := [0, 2, 3] },
-  -- c12f/t3/deep/bravo.init
-  { id := 6, hasPatchFn := false, chained := false,
-    toks := [.loadGuard, .brGuard .ret .body, .storeGuard, .callInit 1, .callInit 0, .callInit 4, .act, .brRet],
-    imports := [1, 0, 4], goList := [0, 1, 4] },
-  -- c12f/t3.init
-  { id := 7, hasPatchFn := false, chained := false,
-    toks := [.loadGuard, .brGuard .ret .body, .storeGuard, .callInit 6, .callInit 0, .callInit 1, .callInit 2, .callInit 3, .act, .brRet],
-    imports := [6, 0, 1, 2, 3], goList := [0, 1, 2, 3, 6] },
-  -- c12f/t4/tr.init
-  { id := 0, hasPatchFn := false, chained := false,
-    toks := [.loadGuard, .brGuard .ret .body, .storeGuard, .act, .brRet],
-    imports := [], goList := [] },
-  -- c12f/t4/echo.init
-  { id := 1, hasPatchFn := false, chained := false,
-    toks := [.loadGuard, .brGuard .ret .body, .storeGuard, .callInit 0, .act, .brRet],
-    imports := [0], goList := [0] },
-  -- c12f/t4/able.init
-  { id := 2, hasPatchFn := false, chained := false,
-    toks := [.loadGuard, .brGuard .ret .body, .storeGuard, .callInit 1, .callInit 0, .act, .brRet],
-    imports := [1, 0], goList := [0, 1] },
-  -- c12f/t4/mid.init
-  { id := 3, hasPatchFn := false, chained := false,
-    toks := [.loadGuard, .brGuard .ret .body, .storeGuard, .callInit 0, .callInit 1, .act, .brRet],
-    imports := [0, 1], goList := [0, 1] },
-  -- c12f/t4.init
-  { id := 7, hasPatchFn := false, chained := false,
-    toks := [.loadGuard, .brGuard .ret .body, .storeGuard, .callInit 0, .callInit 3, .callInit 2, .act, .brRet],
-    imports := [0, 3, 2], goList := [0, 2, 3] },
-  -- c12f/t5/tr.init
-  { id := 0, hasPatchFn := false, chained := false,
-    toks := [.loadGuard, .brGuard .ret .body, .storeGuard, .act, .brRet],
-    imports := [], goList := [] },
-  -- c12f/t5/kilo.init
-  { id := 1, hasPatchFn := false, chained := false,
-    toks := [.loadGuard, .brGuard .ret .body, .storeGuard, .callInit 0, .act, .brRet],
-    imports := [0], goList := [0] },
-  -- c12f/t5/zeta.init
-  { id := 2, hasPatchFn := false, chained := false,
-    toks := [.loadGuard, .brGuard .ret .body, .storeGuard, .callInit 0, .act, .brRet],
-    imports := [0], goList := [0] },
-  -- c12f/t5/sierra.init
-  { id := 3, hasPatchFn := false, chained := false,
-    toks := [.loadGuard, .brGuard .ret .body, .storeGuard, .callInit 2, .callInit 1, .callInit 0, .act, .brRet],
-    imports := [2, 1, 0], goList := [0, 1, 2] },
-  -- c12f/t5/delta.init
-  { id := 4, hasPatchFn := false, chained := false,
-    toks := [.loadGuard, .brGuard .ret .body, .storeGuard, .callInit 0, .callInit 3, .act, .brRet],
-    imports := [0, 3], goList := [0, 3] },
-  -- c12f/t5/omega.init
-  { id := 5, hasPatchFn := false, chained := false,
-    toks := [.loadGuard, .brGuard .ret .body, .storeGuard, .callInit 0, .callInit 2, .act, .brRet],
-    imports := [0, 2], goList := [0, 2] },
-  -- c12f/t5.init
-  { id := 6, hasPatchFn := false, chained := false,
-    toks := [.loadGuard, .brGuard .ret .body, .storeGuard, .callInit 3, .callInit 0, .callInit 5, .callInit 1, .callInit 4, .act, .brRet],
-    imports := [3, 0, 5, 1, 4], goList := [0, 1, 3, 4, 5] }]
+    imports := [1, 0], goList := [0, 1] }]
 
 def entries : List EntryFact := [
   -- c12f/t0
@@ -183,12 +79,6 @@ def entries : List EntryFact := [
   -- c12f/t1
   { calls := [.rtInit, .runtimeInit, .mainInit, .mainMain] },
   -- c12f/t2
-  { calls := [.rtInit, .runtimeInit, .mainInit, .mainMain] },
-  -- c12f/t3
-  { calls := [.rtInit, .runtimeInit, .mainInit, .mainMain] },
-  -- c12f/t4
-  { calls := [.rtInit, .runtimeInit, .mainInit, .mainMain] },
-  -- c12f/t5
   { calls := [.rtInit, .runtimeInit, .mainInit, .mainMain] }]
 
 end LlgoVerif.Gen.C12
